@@ -136,6 +136,7 @@ class DB:
     def __init__(self, root):
         self.root = os.path.abspath(root)
         self.modules = {}
+        self._probes = {}
         self.files = []
         pkg = os.path.join(self.root, 'prysm')
         if not os.path.isdir(pkg):
@@ -185,6 +186,18 @@ class DB:
                     mi = self.method(m.classes[rest[0]], rest[1])
                     if mi is not None:
                         return mi
+                    # not a def in the class body, but a name bound there (NAME = property(...), NAME = helper(...)): the anchor is
+                    # read through a one-line probe `return self.NAME`, so that rules which interpret the getter still can
+                    for c in self.class_chain(m.classes[rest[0]]):
+                        if rest[1] in c.assigns:
+                            key = (c.qual, rest[1])
+                            if key not in self._probes:
+                                node = ast.parse('def %s(self):\n    return self.%s\n' % (rest[1], rest[1])).body[0]
+                                ast.increment_lineno(node, getattr(c.assigns[rest[1]], 'lineno', 1) - 1)
+                                fi = FuncInfo(c.module, '%s.%s' % (c.qual, rest[1]), node, cls=c)
+                                fi.synthetic = True
+                                self._probes[key] = fi
+                            return self._probes[key]
                 if len(rest) == 3 and rest[2] == 'setter' and rest[0] in m.classes:
                     mi = self.method(m.classes[rest[0]], rest[1] + '.setter')
                     if mi is not None:
